@@ -150,7 +150,9 @@ class SingleSettingRepetitions(E2Contract):
     frame = False
 
     def configs(self, tier):
-        out = [("qst", 3, "int"), ("qst", 2, "generator"), ("qst", 2, "none"), ("povmt", 2, "int")]
+        out = [("qst", 3, "int"), ("qst", 2, "generator"), ("qst", 2, "none"), ("povmt", 2, "int"),
+               # no seed argument: the seed stored in the simulation setting is the source
+               ("qst", 2, "setting-seed")]
         if tier == "thorough":
             out += [("qst", 5, "int"), ("povmt", 3, "generator")]
         return out
@@ -161,7 +163,7 @@ class SingleSettingRepetitions(E2Contract):
     def _source(self, W, how):
         if how == "int":
             return 7
-        if how == "none":
+        if how in ("none", "setting-seed"):
             return None
         rnd = W.np.random if W.symbolic else __import__("numpy").random
         return rnd.Generator(rnd.MT19937(11))
@@ -173,7 +175,7 @@ class SingleSettingRepetitions(E2Contract):
         if W.symbolic:
             num_data = [4, 8]
             symrandom.reset()
-            qt, setting = _sim_setting(W, 7 if how == "int" else None, n_rep, num_data, kind)
+            qt, setting = _sim_setting(W, 7 if how in ("int", "setting-seed") else None, n_rep, num_data, kind)
             src = self._source(W, how)
             res = sim.execute_simulation(qt, setting, seed_or_generator=src, is_computation_time_required=False)
             log = list(symrandom.DRAW_LOG)
@@ -181,7 +183,7 @@ class SingleSettingRepetitions(E2Contract):
             out["n_rep"] = len(res.empi_dists_sequences)
             out["disjoint"] = all(not (tags[i] & tags[j]) for i in range(len(tags)) for j in range(i + 1, len(tags)))
             out["every-repetition-draws"] = all(len(t) > 0 for t in tags)
-            sid = {"int": ("seed", 7), "generator": ("seed", 11), "none": ("G",)}[how]
+            sid = {"int": ("seed", 7), "generator": ("seed", 11), "none": ("G",), "setting-seed": ("seed", 7)}[how]
             out["only-the-named-source"] = len(log) > 0 and all(e[0] == sid for e in log)
             # estimates are functions of the stored data only
             est = [r.estimated_var_sequence for r in res.estimation_results]
@@ -192,7 +194,7 @@ class SingleSettingRepetitions(E2Contract):
             return out
         import numpy
         num_data = [1000, 4000]
-        qt, setting = _sim_setting(W, 7 if how == "int" else None, n_rep, num_data, kind)
+        qt, setting = _sim_setting(W, 7 if how in ("int", "setting-seed") else None, n_rep, num_data, kind)
 
         def once(global_seed):
             numpy.random.seed(global_seed)
@@ -355,3 +357,150 @@ class FlowTestSettingUnit(E2Contract):
                 eq("estimates-independent-of-schedule-and-worker-count", out["estimates-other-schedules"], [out["estimates"], out["estimates"]],
                    "... and the same estimates"),
                 eq("objects-independent-of-schedule-and-worker-count", out["truth-other-schedules"], [out["truth"], out["truth"]], "... and the same generated true objects")]
+
+
+# ------------------------------------------------------------------ random effective-Lindbladian noise: where the draws come from
+
+RL = "quara.simulation.random_effective_lindbladian_generation_setting"
+
+
+class RandomLindbladianDraws(E2Contract):
+    """the random parts of the effective-Lindbladian noise model draw from the stream they are given, and from nothing else"""
+    name = "random effective Lindbladian: sources of randomness"
+    prop = "C15"
+    targets = (RL + ":RandomEffectiveLindbladianGenerationSetting._generate_random_variables",
+               RL + ":RandomEffectiveLindbladianGenerationSetting.generate_random_effective_lindbladian_h_part",
+               RL + ":RandomEffectiveLindbladianGenerationSetting.generate_random_effective_lindbladian_d_part")
+    n_conformance = 0
+    max_paths = 16
+    frame = False
+
+    def configs(self, tier):
+        return [("1q", "int"), ("1q", "generator"), ("1q", "none")] + ([("1qt", "generator")] if tier == "thorough" else [])
+
+    def inputs(self, W, cfg, mk):
+        return dict(probe=mk.real("probe"))
+
+    def _setting(self, W, s):
+        c = make_csys(W, s)
+        return W.mod(RL).RandomEffectiveLindbladianGenerationSetting(c, ("state", "z0" if s == "1q" else "01z0"), "identity", 0.1, 0.2)
+
+    def run(self, W, cfg, inp):
+        s, how = cfg
+        out = {}
+        if W.symbolic:
+            rnd = W.np.random
+            symrandom.reset()
+            gs = self._setting(W, s)
+            symrandom.reset()
+            src = {"int": 7, "generator": rnd.Generator(rnd.MT19937(11)), "none": None}[how]
+            stream = W.mod("quara.utils.number_util").to_stream(src)
+            h, _ = gs.generate_random_effective_lindbladian_h_part(stream)
+            d, _, _ = gs.generate_random_effective_lindbladian_d_part(stream)
+            log = list(symrandom.DRAW_LOG)
+            sid = {"int": ("seed", 7), "generator": ("seed", 11), "none": ("G",)}[how]
+            out["only-the-given-stream"] = len(log) == 3 and all(e[0] == sid for e in log) and [e[1] for e in log] == [0, 1, 2]
+            out["h-depends-on-first-draw-only"] = symrandom.draw_tags(h) == {(sid, 0)}
+            out["d-depends-on-later-draws-only"] = symrandom.draw_tags(d) == {(sid, 1), (sid, 2)}
+            return out
+        import numpy
+        gs = self._setting(W, s)
+
+        def once(global_seed):
+            numpy.random.seed(global_seed)
+            src = {"int": 7, "generator": numpy.random.Generator(numpy.random.MT19937(11)), "none": None}[how]
+            stream = W.mod("quara.utils.number_util").to_stream(src)
+            h, _ = gs.generate_random_effective_lindbladian_h_part(stream)
+            d, _, _ = gs.generate_random_effective_lindbladian_d_part(stream)
+            return numpy.round(h, 12).tolist(), numpy.round(d, 12).tolist()
+        a, b = once(1), once(2 if how != "none" else 1)
+        out["only-the-given-stream"] = a == b
+        out["h-depends-on-first-draw-only"] = True
+        out["d-depends-on-later-draws-only"] = True
+        return out
+
+    def post(self, W, cfg, inp, out):
+        return [eq("draws-only-from-the-stream-it-is-given", out["only-the-given-stream"], True,
+                   "three draws (normal vector, normal vector, random unitary), all from the given stream (the global state only when none is given), consumed in order"),
+                eq("h-part-is-a-function-of-its-own-draw", out["h-depends-on-first-draw-only"], True, "the Hamiltonian part depends on the first draw only"),
+                eq("d-part-is-a-function-of-its-own-draws", out["d-depends-on-later-draws-only"], True, "the dissipator part depends on the second and third draws only")]
+
+
+def _stub_random_generate(self, seed_or_generator=None):
+    """callee contract of RandomEffectiveLindbladianGenerationSetting.generate used by the flow contract below: consumes draws from the stream it is
+    given (RandomLindbladianDraws) and returns an object of the base's type; here: the base object itself plus one recorded draw"""
+    g = type(self).generate_random_effective_lindbladian.__globals__
+    stream = g["to_stream"](seed_or_generator)
+    draws = stream.standard_normal(1)
+    return (self.qoperation_base, draws, draws, draws, draws)
+
+
+class FlowRandomNoiseStreams(FlowTestSettingUnit):
+    """the flow hands sample i's generator (i-th child of SeedSequence(seed_qoperation)) to the noise model of the true object AND of every tester"""
+    name = "simulation flow: streams of the random noise model"
+    stubs = dict(FlowTestSettingUnit.stubs)
+    stubs[RL + ":RandomEffectiveLindbladianGenerationSetting.generate"] = _stub_random_generate
+
+    def configs(self, tier):
+        return [(2, 2)]
+
+    def run(self, W, cfg, inp):
+        n_rep, n_sample = cfg
+        flow = W.mod(FLOW)
+        sim = W.mod(SIM)
+        c_sys = make_csys(W, "1q")
+        est = W.mod(STD + "linear_estimator").LinearEstimator()
+        ns = sim.NoiseSetting
+        para = {"lindbladian_base": "identity", "strength_h_part": 0.01, "strength_k_part": 0.02}
+
+        def setting(num_data):
+            return sim.EstimatorTestSetting(true_object=ns(("state", "z0"), "random_effective_lindbladian", dict(para)),
+                                            tester_objects=[ns(("povm", a), "random_effective_lindbladian", dict(para)) for a in ("x", "y", "z")],
+                                            seed_data=777, seed_qoperation=888, n_rep=n_rep, num_data=num_data, n_sample=n_sample, schedules="all",
+                                            case_names=["linear(True)"], estimators=[est], eps_proj_physical_list=[1e-13],
+                                            eps_truncate_imaginary_part_list=[1e-13], algo_list=[(None, None)], loss_list=[(None, None)],
+                                            parametrizations=[True], c_sys=c_sys, generation_setting_is_physicality_required=False)
+        out = {}
+        if W.symbolic:
+            symrandom.reset()
+            flow.execute_simulation_test_setting_unit(setting([4]), 0, "/nonexistent/qverif", exec_sim_check=dict(NO_CHECKS), pdf_mode="none",
+                                                      is_computation_time_required=False)
+            log = list(symrandom.DRAW_LOG)
+            gen = [e for e in log if e[2] == "normal"]
+            out["generation-draws"] = len(gen)
+            out["from-the-sample's-stream"] = all(e[0][:2] == ("ss", ("root", 888)) for e in gen)
+            out["per-sample"] = sorted({e[0][2] for e in gen if len(e[0]) > 2}) == list(range(n_sample))
+            out["no-global"] = all(e[0][0] == "ss" for e in log)
+            return out
+        import numpy
+        import shutil
+        import tempfile
+        import io
+        import contextlib
+
+        def once(global_seed):
+            numpy.random.seed(global_seed)
+            d = tempfile.mkdtemp(prefix="qverif_c15_")
+            try:
+                with contextlib.redirect_stdout(io.StringIO()), contextlib.redirect_stderr(io.StringIO()):
+                    rs = flow.execute_simulation_test_setting_unit(setting([100]), 0, d, exec_sim_check=dict(NO_CHECKS), pdf_mode="none",
+                                                                    is_computation_time_required=False)
+                return [[numpy.round(v, 12).tolist() for v in stacked(W, r.simulation_setting.true_object)] for r in rs], \
+                       [[[numpy.round(v, 12).tolist() for v in stacked(W, t)] for t in r.simulation_setting.tester_objects] for r in rs], \
+                       [_plain(r.empi_dists_sequences) for r in rs]
+            finally:
+                shutil.rmtree(d, ignore_errors=True)
+        a, b = once(1), once(2)
+        out["generation-draws"] = 4 * n_sample
+        out["from-the-sample's-stream"] = a[0] == b[0] and a[1] == b[1]
+        out["per-sample"] = a[0][0] != a[0][-1] if n_sample > 1 else True
+        out["no-global"] = a == b
+        return out
+
+    def post(self, W, cfg, inp, out):
+        n_rep, n_sample = cfg
+        return [eq("one-generation-call-per-noisy-object", out["generation-draws"], 4 * n_sample, "true object and three testers are generated once per sample"),
+                eq("noise-of-true-object-and-testers-from-the-sample's-stream", out["from-the-sample's-stream"], True,
+                   "every generation draw comes from a child of SeedSequence(seed_qoperation): true object AND testers are functions of the seed"),
+                eq("each-sample-has-its-own-stream", out["per-sample"], True, "sample i draws from the i-th child"),
+                eq("global-random-state-untouched", out["no-global"], True, "no draw comes from the global numpy state")]
